@@ -46,8 +46,11 @@ def units(tier):
     specs, _ = small_specs(tier, rng, allow_cyclic=False, nrand_quick=60, nrand_thorough=800,
                            chains_quick=10, chains_thorough=150, fixed_quick=80, fixed_thorough=1200)
     specs = specs[:: (2 if tier == "quick" else 1)]
-    return [{"specs": [s.to_json() for s in ch], "seed": seed() * 1000 + i, "nhist": 3 if tier == "quick" else 6}
-            for i, ch in enumerate(chunks(specs, 30))]
+    us = [{"specs": [s.to_json() for s in ch], "seed": seed() * 1000 + i, "nhist": 3 if tier == "quick" else 6}
+          for i, ch in enumerate(chunks(specs, 30))]
+    us += [{"kind": "forked", "seed": seed() * 1000 + 900 + i, "nhist": 40 if tier == "quick" else 400}
+           for i in range(2 if tier == "quick" else 8)]
+    return us
 
 
 def make_actions(spec, state):
@@ -99,9 +102,71 @@ def build(kind, g, tables, acts, recovery=False):
     return cls(g, tables=tables, actions=acts, error_recovery=recovery)
 
 
+# GLR parses aborted in the middle of a forked frontier: the heads diverge after a reduce/reduce conflict and
+# expect different custom terminals; a recognizer (or an action, or the dynamic filter) raises for some values
+# only, so the exception comes while other heads of the frontier have already been looked at
+FORKED = [
+    ("S: A 'b' dec | B 'b' byte;\nA: 'a';\nB: 'a';\nterminals\ndec: ;\nbyte: ;\n",
+     ["a b 7", "a b 300", "a b 0", "a b 999 ", "a b", "a b x", "a b 12 3"]),
+    ("S: A x 'c' | B y 'd' | A y 'e';\nA: 'a';\nB: 'a';\nterminals\nx: ;\ny: ;\n",
+     ["a 1 c", "a 1 d", "a 1 e", "a 777 c", "a 777 d", "a 5", "a 777"]),
+]
+
+
+def forked_recognizers(raise_above):
+    import re
+    num_re = re.compile(r"\d+")
+
+    def plain(inp, pos):
+        m = num_re.match(inp, pos)
+        return m.group() if m else None
+
+    def strict(inp, pos):
+        m = num_re.match(inp, pos)
+        if m and int(m.group()) > raise_above:
+            raise Boom()
+        return m.group() if m else None
+    return plain, strict
+
+
+def run_forked(u, res):
+    st = res["stats"]
+    rng = random.Random(u["seed"])
+    for gtxt, pool in FORKED:
+        names = [ln.split(":")[0] for ln in gtxt.split("terminals\n")[1].split("\n") if ln.endswith(": ;")]
+        for h in range(u["nhist"]):
+            plain, strict = forked_recognizers(255)
+            for kind in ("GLR", "LR"):
+                def mk():
+                    g = Grammar.from_string(gtxt, recognizers={names[0]: plain, names[1]: strict})
+                    return GLRParser(g) if kind == "GLR" else Parser(g)
+                try:
+                    p, fresh = mk(), mk()
+                except (SRConflicts, RRConflicts):
+                    continue
+                ops = [rng.choice(pool) for _ in range(rng.randint(1, 5))]
+                for text in ops:
+                    outcome(p, text)
+                st["histories"] += 1
+                case = {"grammar": gtxt, "parser": kind, "history": ["parse %r" % t for t in ops],
+                        "recognizers": "%s: digits; %s: digits, raises above 255" % (names[0], names[1])}
+                for text in pool:
+                    a, b = outcome(p, text), outcome(fresh, text)
+                    res["evaluations"] += 1
+                    st["probes"] += 1
+                    if a != b:
+                        res["violations"].append({"kind": "used-parser-differs-from-fresh-parser",
+                                                  "case": dict(case, input=text), "observed": list(a), "expected": list(b)})
+                        break
+                res["nontrivial"].append(h16(case))
+    return res
+
+
 def run_unit(u):
     res = {"evaluations": 0, "nontrivial": [], "samples": [], "violations": [], "disagreements": [],
            "stats": {"histories": 0, "ops": {}, "probes": 0, "failed_builds": 0, "build_errors": {}}}
+    if u.get("kind") == "forked":
+        return run_forked(u, res)
     rng = random.Random(u["seed"])
     st = res["stats"]
     for sj in u["specs"]:
